@@ -1,4 +1,356 @@
 import AffVerif.Model.Arch
-/-! # C18 (theorems added below as they are proved) -/
+import AffVerif.Props.C01
+/-!
+# C18 — the architecture builder tracks shapes; accepted architectures distill; ranges split
+
+* `C18_linear_accept_iff`, `C18_partial_accept_iff`, `C18_argmax_accept_iff` — a call is accepted exactly when it is
+  dimension-compatible with the current shape.
+* `C18_history` — for every sequence of builder calls, accepted or rejected: the current shape is the output
+  dimension of the network built so far (`netDim`), every queued operator carries the output dimension of the
+  network up to and including it, and the queued layers are dimension-compatible (`Compat`).
+* `C18_accepted_distills` — an accepted architecture without heads satisfies the hypothesis `LayersOK` of the
+  distillation theorem (C01): no dimension assertion of the builder can fail, and the distilled tree is the network.
+* `C18_extract_range`, `C18_split` — `extract_range(s,e)` is the slice of the queue with the shapes of the prefix
+  networks; the two halves of a split chain (`head.current_shape = tail.input_shape`) and compose to the whole.
+* Open: `read_layers` (string-level parsing and sorting; decided per generated file by the correspondence check).
+-/
+set_option linter.unusedSectionVars false
+set_option linter.unusedVariables false
 namespace AV
+variable {α : Type} [Field α] [LinearOrder α] [IsStrictOrderedRing α]
+
+/-- output dimension of one layer applied to `d` values -/
+def layerOut (d : Nat) : Layer α → Nat
+  | .linear a => a.outdim
+  | .argmax => 1
+  | .classChar _ => 1
+  | _ => d
+
+/-- output dimension of the network `layers` on `d` inputs -/
+def netDim (d : Nat) (layers : List (Layer α)) : Nat := layers.foldl layerOut d
+
+/-- dimension compatibility of a layer list at input dimension `d` -/
+def Compat : Nat → List (Layer α) → Prop
+  | _, [] => True
+  | d, .linear a :: ls => a.indim = d ∧ Compat a.outdim ls
+  | d, .relu i :: ls => i < d ∧ Compat d ls
+  | d, .leakyRelu i _ :: ls => i < d ∧ Compat d ls
+  | d, .hardTanh i :: ls => i < d ∧ Compat d ls
+  | d, .hardSigmoid i :: ls => i < d ∧ Compat d ls
+  | d, .argmax :: ls => 2 ≤ d ∧ Compat 1 ls
+  | d, .classChar c :: ls => c < d ∧ Compat 1 ls
+
+/-- every queued operator carries the output dimension of the network up to and including it -/
+def RecordedOK : Nat → List (Layer α × Nat) → Prop
+  | _, [] => True
+  | d, (l, sh) :: r => sh = layerOut d l ∧ RecordedOK sh r
+
+theorem netDim_append (d : Nat) (ls ls' : List (Layer α)) : netDim d (ls ++ ls') = netDim (netDim d ls) ls' := by
+  simp [netDim, List.foldl_append]
+
+theorem compat_append (d : Nat) (ls ls' : List (Layer α)) :
+    Compat d (ls ++ ls') ↔ Compat d ls ∧ Compat (netDim d ls) ls' := by
+  induction ls generalizing d with
+  | nil => simp [Compat, netDim]
+  | cons l ls ih =>
+    cases l <;> simp [Compat, netDim, layerOut, ih, and_assoc]
+
+theorem recordedOK_append (d : Nat) (ops ops' : List (Layer α × Nat)) :
+    RecordedOK d (ops ++ ops') ↔ RecordedOK d ops ∧ RecordedOK (netDim d (ops.map (·.1))) ops' := by
+  induction ops generalizing d with
+  | nil => simp [RecordedOK, netDim]
+  | cons o ops ih =>
+    obtain ⟨l, sh⟩ := o
+    simp only [List.cons_append, RecordedOK, List.map_cons, netDim, List.foldl_cons, ih, and_assoc]
+    constructor
+    · rintro ⟨h1, h2, h3⟩; subst h1; exact ⟨rfl, h2, h3⟩
+    · rintro ⟨h1, h2, h3⟩; subst h1; exact ⟨rfl, h2, h3⟩
+
+/-! ### acceptance -/
+
+theorem C18_linear_accept_iff (A : Arch α) (a : Aff α) : (∃ A', A.linear a = .ok A') ↔ A.currentShape = a.indim := by
+  unfold Arch.linear
+  split <;> simp_all
+
+theorem C18_partial_accept_iff (A : Arch α) (mk : Nat → Layer α) (i : Nat) :
+    (∃ A', A.partialAct mk i = .ok A') ↔ i < A.currentShape := by
+  unfold Arch.partialAct
+  split <;> simp_all
+
+theorem C18_argmax_accept_iff (A : Arch α) : (∃ A', A.argmax = .ok A') ↔ 2 ≤ A.currentShape := by
+  unfold Arch.argmax
+  split
+  · rename_i h; simp; omega
+  · rename_i h; simp; omega
+
+/-! ### the invariant of every builder history -/
+
+/-- the per-neuron activations -/
+inductive ActKind (α : Type) where
+  | relu | leakyRelu (a : α) | hardTanh | hardSigmoid
+
+def ActKind.mk : ActKind α → Nat → Layer α
+  | .relu, i => .relu i
+  | .leakyRelu a, i => .leakyRelu i a
+  | .hardTanh, i => .hardTanh i
+  | .hardSigmoid, i => .hardSigmoid i
+
+inductive Call (α : Type) where
+  | linear (a : Aff α)
+  | partialAct (k : ActKind α) (idx : Nat)
+  | fullAct (k : ActKind α)
+  | argmax
+
+/-- one builder call; a rejected call leaves the architecture as it was -/
+def Arch.step (A : Arch α) : Call α → Arch α
+  | .linear a => match A.linear a with | .ok A' => A' | .error _ => A
+  | .partialAct k i => match A.partialAct k.mk i with | .ok A' => A' | .error _ => A
+  | .fullAct k => A.fullAct k.mk
+  | .argmax => match A.argmax with | .ok A' => A' | .error _ => A
+
+structure Arch.Inv (A : Arch α) : Prop where
+  shape : A.currentShape = netDim A.inputShape (A.ops.map (·.1))
+  recorded : RecordedOK A.inputShape A.ops
+  compat : Compat A.inputShape (A.ops.map (·.1))
+
+theorem C18_new (n : Nat) : (Arch.new n : Arch α).Inv := ⟨rfl, trivial, trivial⟩
+
+theorem actKind_layerOut (k : ActKind α) (i d : Nat) : layerOut d (k.mk i) = d := by
+  cases k <;> rfl
+
+theorem actKind_compat (k : ActKind α) (i d : Nat) (h : i < d) : Compat d [k.mk i] := by
+  cases k <;> simp [ActKind.mk, Compat, h]
+
+theorem fullAct_facts (k : ActKind α) (d m : Nat) (hm : m ≤ d) :
+    netDim d ((List.range m).map k.mk) = d ∧ Compat d ((List.range m).map k.mk) ∧
+    RecordedOK d ((List.range m).map (fun i => (k.mk i, d))) := by
+  induction m with
+  | zero => simp [netDim, Compat, RecordedOK]
+  | succ m ih =>
+    obtain ⟨h1, h2, h3⟩ := ih (by omega)
+    rw [List.range_succ, List.map_append, List.map_append]
+    refine ⟨?_, ?_, ?_⟩
+    · rw [netDim_append, h1]; simp [netDim, actKind_layerOut]
+    · rw [compat_append, h1]; exact ⟨h2, by simpa using actKind_compat k m d (by omega)⟩
+    · rw [recordedOK_append]
+      refine ⟨h3, ?_⟩
+      have : (List.map (fun i => (k.mk i, d)) (List.range m)).map (·.1) = (List.range m).map k.mk := by
+        simp [List.map_map, Function.comp_def]
+      rw [this, h1]
+      simp [RecordedOK, actKind_layerOut]
+
+theorem C18_step (A : Arch α) (c : Call α) (h : A.Inv) : (A.step c).Inv ∧ (A.step c).inputShape = A.inputShape := by
+  obtain ⟨hs, hr, hc⟩ := h
+  cases c with
+  | linear a =>
+    by_cases heq : A.currentShape = a.indim
+    · simp only [Arch.step, Arch.linear, heq, if_true]
+      refine ⟨⟨?_, ?_, ?_⟩, by first | trivial | rfl⟩
+      · simp [netDim_append, netDim, layerOut]
+      · rw [recordedOK_append]; exact ⟨hr, by simp [RecordedOK, layerOut]⟩
+      · simp only [List.map_append, List.map_cons, List.map_nil]
+        rw [compat_append]; exact ⟨hc, by rw [← hs]; simp [Compat, heq]⟩
+    · simp only [Arch.step, Arch.linear, heq, if_false]
+      exact ⟨⟨hs, hr, hc⟩, by first | trivial | rfl⟩
+  | partialAct k i =>
+    by_cases hlt : i < A.currentShape
+    · simp only [Arch.step, Arch.partialAct, hlt, if_true]
+      refine ⟨⟨?_, ?_, ?_⟩, by first | trivial | rfl⟩
+      · simp only [List.map_append, List.map_cons, List.map_nil]
+        rw [netDim_append, ← hs]; simp [netDim, actKind_layerOut]
+      · rw [recordedOK_append]; exact ⟨hr, by rw [← hs]; simp [RecordedOK, actKind_layerOut]⟩
+      · simp only [List.map_append, List.map_cons, List.map_nil]
+        rw [compat_append, ← hs]; exact ⟨hc, actKind_compat k i _ hlt⟩
+    · simp only [Arch.step, Arch.partialAct, hlt, if_false]
+      exact ⟨⟨hs, hr, hc⟩, by first | trivial | rfl⟩
+  | fullAct k =>
+    simp only [Arch.step, Arch.fullAct]
+    obtain ⟨h1, h2, h3⟩ := fullAct_facts k A.currentShape A.currentShape (le_refl _)
+    have hmap : (List.map (fun i => (k.mk i, A.currentShape)) (List.range A.currentShape)).map (·.1) =
+        (List.range A.currentShape).map k.mk := by simp [List.map_map, Function.comp_def]
+    refine ⟨⟨?_, ?_, ?_⟩, by first | trivial | rfl⟩
+    · simp only [List.map_append, hmap]; rw [netDim_append, ← hs, h1]
+    · rw [recordedOK_append, ← hs]; exact ⟨hr, h3⟩
+    · simp only [List.map_append, hmap]; rw [compat_append, ← hs]; exact ⟨hc, h2⟩
+  | argmax =>
+    by_cases hlt : A.currentShape < 2
+    · simp only [Arch.step, Arch.argmax, hlt, if_true]
+      exact ⟨⟨hs, hr, hc⟩, by first | trivial | rfl⟩
+    · simp only [Arch.step, Arch.argmax, hlt, if_false]
+      refine ⟨⟨?_, ?_, ?_⟩, by first | trivial | rfl⟩
+      · simp [netDim_append, netDim, layerOut]
+      · rw [recordedOK_append]; exact ⟨hr, by simp [RecordedOK, layerOut]⟩
+      · simp only [List.map_append, List.map_cons, List.map_nil]
+        rw [compat_append, ← hs]; exact ⟨hc, by simp [Compat]; omega⟩
+
+theorem C18_step_inputShape (A : Arch α) (c : Call α) : (A.step c).inputShape = A.inputShape := by
+  cases c with
+  | linear a => by_cases h : A.currentShape = a.indim <;> simp [Arch.step, Arch.linear, h]
+  | partialAct k i => by_cases h : i < A.currentShape <;> simp [Arch.step, Arch.partialAct, h]
+  | fullAct k => rfl
+  | argmax => by_cases h : A.currentShape < 2 <;> simp [Arch.step, Arch.argmax, h]
+
+theorem foldl_inputShape (calls : List (Call α)) (A : Arch α) : (calls.foldl Arch.step A).inputShape = A.inputShape := by
+  induction calls generalizing A with
+  | nil => rfl
+  | cons c cs ih => rw [List.foldl_cons, ih]; exact C18_step_inputShape A c
+
+/-- after any sequence of builder calls, valid or invalid: current shape = output dimension of the network built so
+    far, recorded shapes are right, the queue is dimension-compatible -/
+theorem C18_history (n : Nat) (calls : List (Call α)) : (calls.foldl Arch.step (Arch.new n : Arch α)).Inv := by
+  suffices ∀ A : Arch α, A.Inv → (calls.foldl Arch.step A).Inv from this _ (C18_new n)
+  induction calls with
+  | nil => intro A h; exact h
+  | cons c cs ih => intro A h; exact ih _ (C18_step A c h).1
+
+/-! ### accepted architectures distill -/
+
+def headFree : List (Layer α) → Prop
+  | [] => True
+  | .argmax :: _ => False
+  | .classChar _ :: _ => False
+  | _ :: ls => headFree ls
+
+def linearWF : List (Layer α) → Prop
+  | [] => True
+  | .linear a :: ls => a.WF ∧ linearWF ls
+  | _ :: ls => linearWF ls
+
+theorem layersOK_of_compat (d : Nat) (ls : List (Layer α)) (hc : Compat d ls) (hh : headFree ls) (hw : linearWF ls) :
+    LayersOK d ls := by
+  induction ls generalizing d with
+  | nil => trivial
+  | cons l ls ih =>
+    cases l with
+    | linear a => exact ⟨hw.1, hc.1, ih _ hc.2 hh hw.2⟩
+    | relu i => exact ⟨hc.1, ih _ hc.2 hh hw⟩
+    | leakyRelu i a => exact ⟨hc.1, ih _ hc.2 hh hw⟩
+    | hardTanh i => exact ⟨hc.1, ih _ hc.2 hh hw⟩
+    | hardSigmoid i => exact ⟨hc.1, ih _ hc.2 hh hw⟩
+    | argmax => exact absurd hh (by simp [headFree])
+    | classChar c => exact absurd hh (by simp [headFree])
+
+/-- every accepted architecture (no heads, well-formed weight matrices) distills: the builder's dimension assertions
+    hold (`LayersOK`) and the distilled tree computes the network at every input -/
+theorem C18_accepted_distills {σ : Type} (tol : α) (O : Oracles σ α) (hlp : InfeasibleSound O.lp) (k : NetConsts α)
+    (n : Nat) (calls : List (Call α)) (s : σ) (x : List α) (hx : x.length = n)
+    (hh : headFree ((calls.foldl Arch.step (Arch.new n : Arch α)).ops.map (·.1)))
+    (hw : linearWF ((calls.foldl Arch.step (Arch.new n : Arch α)).ops.map (·.1))) :
+    let layers := (calls.foldl Arch.step (Arch.new n : Arch α)).ops.map (·.1)
+    LayersOK n layers ∧
+    PT.eval (afftreeFromLayers tol O k n none layers s).1 x = some (netEval k layers x) := by
+  intro layers
+  have hinv := C18_history (α := α) n calls
+  have hin : (calls.foldl Arch.step (Arch.new n : Arch α)).inputShape = n := foldl_inputShape calls _
+  have hok : LayersOK n layers := by
+    have := hinv.compat; rw [hin] at this
+    exact layersOK_of_compat n layers this hh hw
+  exact ⟨hok, C01_distill_faithful_total_partial tol O hlp k n layers s hok x hx⟩
+
+/-! ### `extract_range` -/
+
+theorem recorded_get (d : Nat) (ops : List (Layer α × Nat)) (h : RecordedOK d ops) (j : Nat) (hj : j < ops.length) :
+    ((ops.drop j).head?.map (·.2)).getD d = netDim d ((ops.take (j+1)).map (·.1)) := by
+  induction ops generalizing d j with
+  | nil => simp at hj
+  | cons o ops ih =>
+    obtain ⟨l, sh⟩ := o
+    simp only [RecordedOK] at h
+    cases j with
+    | zero => simp [netDim, h.1]
+    | succ j =>
+      simp only [List.length_cons, Nat.add_lt_add_iff_right] at hj
+      have := ih sh h.2 j hj
+      simp only [List.drop_succ_cons, List.take_succ_cons, List.map_cons, netDim, List.foldl_cons] at this ⊢
+      rw [← h.1]
+      -- the default value is irrelevant: the element exists
+      have hne : (ops.drop j).head? ≠ none := by
+        simp [List.head?_eq_none_iff]; omega
+      cases hd : (ops.drop j).head? with
+      | none => exact absurd hd hne
+      | some v => rw [hd] at this; simpa using this
+
+theorem recorded_last (d : Nat) (ops : List (Layer α × Nat)) (h : RecordedOK d ops) :
+    (ops.getLast?.map (·.2)).getD d = netDim d (ops.map (·.1)) := by
+  induction ops generalizing d with
+  | nil => simp [netDim]
+  | cons o ops ih =>
+    obtain ⟨l, sh⟩ := o
+    simp only [RecordedOK] at h
+    have := ih sh h.2
+    cases ops with
+    | nil => simp [netDim, h.1]
+    | cons o2 ops2 =>
+      simp only [List.getLast?_cons_cons, List.map_cons, netDim, List.foldl_cons] at this ⊢
+      rw [← h.1]
+      cases hl : (o2 :: ops2).getLast? with
+      | none => simp at hl
+      | some v => rw [hl] at this; simpa using this
+
+theorem recordedOK_drop (d : Nat) (ops : List (Layer α × Nat)) (h : RecordedOK d ops) (s : Nat) :
+    RecordedOK (netDim d ((ops.take s).map (·.1))) (ops.drop s) := by
+  have := (recordedOK_append d (ops.take s) (ops.drop s)).mp (by rw [List.take_append_drop]; exact h)
+  exact this.2
+
+theorem recordedOK_take (d : Nat) (ops : List (Layer α × Nat)) (h : RecordedOK d ops) (s : Nat) :
+    RecordedOK d (ops.take s) := by
+  have := (recordedOK_append d (ops.take s) (ops.drop s)).mp (by rw [List.take_append_drop]; exact h)
+  exact this.1
+
+/-- `extract_range(s,e)` on a built architecture: the slice of the queue, with the output dimensions of the prefix
+    networks as input and current shape -/
+theorem C18_extract_range (A : Arch α) (h : A.Inv) (s e : Nat) (hse : s < e) (he : e ≤ A.ops.length) :
+    ∃ R, A.extractRange s e = .ok R ∧ R.ops = (A.ops.drop s).take (e - s) ∧
+      R.inputShape = netDim A.inputShape ((A.ops.take s).map (·.1)) ∧
+      R.currentShape = netDim A.inputShape ((A.ops.take e).map (·.1)) := by
+  unfold Arch.extractRange
+  rw [if_neg (by omega)]
+  refine ⟨_, rfl, rfl, ?hin, ?hcur⟩
+  case hin =>
+    simp only
+    split
+    · rename_i hs0; subst hs0; simp [netDim]
+    · rename_i hs0
+      have := recorded_get A.inputShape A.ops h.recorded (s - 1) (by omega)
+      rw [this]; congr 3; omega
+  case hcur =>
+    simp only
+    have hin : (if s = 0 then A.inputShape else ((A.ops.drop (s - 1)).head?.map (·.2)).getD A.inputShape) =
+        netDim A.inputShape ((A.ops.take s).map (·.1)) := by
+      split
+      · rename_i hs0; subst hs0; simp [netDim]
+      · rename_i hs0
+        have := recorded_get A.inputShape A.ops h.recorded (s - 1) (by omega)
+        rw [this]; congr 3; omega
+    rw [hin]
+    have hrec := recordedOK_take _ _ (recordedOK_drop A.inputShape A.ops h.recorded s) (e - s)
+    rw [recorded_last _ _ hrec, ← netDim_append, ← List.map_append]
+    congr 2
+    have : A.ops.take e = A.ops.take s ++ (A.ops.drop s).take (e - s) := by
+      conv_lhs => rw [show e = s + (e - s) by omega]
+      rw [List.take_add]
+    rw [this]
+
+/-- the split law on the queue: for every split point the two ranges are the two parts of the queue, the head's
+    current shape is the tail's input shape, and the network of the whole is the tail's network after the head's -/
+theorem C18_split (A : Arch α) (h : A.Inv) (k : Nat) (hk0 : 0 < k) (hk : k < A.ops.length) (c : NetConsts α) :
+    ∃ H T, A.extractRange 0 k = .ok H ∧ A.extractRange k A.ops.length = .ok T ∧
+      H.ops ++ T.ops = A.ops ∧ H.inputShape = A.inputShape ∧ H.currentShape = T.inputShape ∧
+      T.currentShape = A.currentShape ∧
+      ∀ x, netEval c (A.ops.map (·.1)) x = netEval c (T.ops.map (·.1)) (netEval c (H.ops.map (·.1)) x) := by
+  obtain ⟨H, hH, hHo, hHi, hHc⟩ := C18_extract_range A h 0 k hk0 (by omega)
+  obtain ⟨T, hT, hTo, hTi, hTc⟩ := C18_extract_range A h k A.ops.length hk (le_refl _)
+  have hops : H.ops ++ T.ops = A.ops := by
+    rw [hHo, hTo]
+    have : List.take (A.ops.length - k) (List.drop k A.ops) = List.drop k A.ops :=
+      List.take_of_length_le (by simp)
+    rw [this]
+    simp only [Nat.sub_zero, List.drop_zero]
+    exact List.take_append_drop k A.ops
+  refine ⟨H, T, hH, hT, hops, by rw [hHi]; simp [netDim], by rw [hHc, hTi], ?_, ?_⟩
+  · rw [hTc, h.shape]; simp
+  · intro x
+    rw [← hops, List.map_append]
+    simp [netEval, List.foldl_append]
+
 end AV
